@@ -83,10 +83,20 @@ func (in *Interp) pickNext(cur *gor) *gor {
 			return s.gs[id]
 		}
 	}
+	if in.SchedReverse {
+		for i := len(s.gs) - 1; i >= 0; i-- {
+			if g := s.gs[i]; g != cur && g.id != 0 && in.runnable(g) {
+				return g
+			}
+		}
+	}
 	for _, g := range s.gs {
-		if g != cur && in.runnable(g) {
+		if g != cur && g.id != 0 && in.runnable(g) {
 			return g
 		}
+	}
+	if g := s.gs[0]; g != cur && in.runnable(g) {
+		return g
 	}
 	return nil
 }
